@@ -183,6 +183,10 @@ FamilyOf(f) ==
     [] f = "core2"    -> QCore2(0)
     [] f = "disjcore" -> QDisjCore(0)
     [] f = "deepq"    -> QDeepQuick(0)
+    [] f = "deepadv"  -> { Conj(<< T(3), Bool(<< T(1) >>, << T(2) >>, m, << >>, << >>) >>) : m \in 0..1 }
+                         \cup { Conj(<< Bool(<< T(1) >>, << >>, 0, << T(2) >>, << >>), T(3) >>),
+                                Conj(<< Disj(<< T(1), T(2) >>, 1), T(3) >>),
+                                Bool(<< T(3) >>, << >>, 0, << >>, << Disj(<< T(1), T(2) >>, 1) >>) }
     [] f = "deepq2"   -> QDeepQuick(0) \cup QDeepMore(0)
     [] f = "replayq"  -> QCore2(0) \cup QDeepQuick(0) \cup QDeepMore(0)
     [] f = "flat"     -> QFlat(0)
